@@ -11,6 +11,7 @@ import (
 	"os"
 	"path/filepath"
 	"runtime/debug"
+	"strings"
 	"sync"
 	"sync/atomic"
 	"time"
@@ -204,7 +205,16 @@ func NewLW(s *Server, cfg LWCfg) (*LW, error) {
 		}
 		dir := filepath.Join(root, ".build")
 		_ = os.MkdirAll(dir, 0o755)
-		lw.sock = filepath.Join(dir, fmt.Sprintf("s-%d-%d.sock", os.Getpid(), sockSeq.Add(1)))
+		seq := sockSeq.Add(1)
+		lw.sock = filepath.Join(dir, fmt.Sprintf("s-%d-%d.sock", os.Getpid(), seq))
+		if seq%2 == 0 {
+			// every other socket gets a long name without dots (socket paths may be up to about 100 bytes; they
+			// are file names, not host names, and nothing limits the length of their components to 63)
+			base := fmt.Sprintf("s-%d-%d-", os.Getpid(), seq)
+			if pad := 100 - len(dir) - 1 - len(base) - len(".sock"); pad > 0 {
+				lw.sock = filepath.Join(dir, base+strings.Repeat("x", pad)+".sock")
+			}
+		}
 		_ = os.Remove(lw.sock)
 		base, err = net.Listen("unix", lw.sock)
 		lw.Addr = lw.sock
